@@ -92,6 +92,14 @@ def tables():
     nmap = list(P.TOML_ARGUMENT_NAME_TO_SYS_ARGUMENT_NAME_MAP.items())
     pair = lambda kv: f"({lstr(kv[0])}, {lstr(kv[1])})"  # noqa: E731
     neg = [s for p in (cli, toml) for s in p._option_string_actions if p._negative_number_matcher.match(s)]
+    from rattr.cli._types import TomlArgumentType
+
+    probes = [True, False, 0, 3, -5, "s", "", 1.5, [], ["a"], ["a", 1], [True], {}]
+    verdicts = []
+    for member in TomlArgumentType:
+        for v in probes:
+            verdicts.append((member.name, repr(v), bool(member.is_valid(v))))
+    triple = lambda t: f"({lstr(t[0])}, {lstr(t[1])}, {lbool(t[2])})"  # noqa: E731
     return [
         "inductive RawVal where\n  | none | suppress | bool (b : Bool) | int (i : Int) | str (s : String) | other (s : String)\n  deriving DecidableEq, Repr\n",
         "structure RawOpt where\n  flags : List String\n  dest : String\n  action : String\n  typ : String\n"
@@ -107,6 +115,8 @@ def tables():
         f"def tomlNameMap : List (String × String) := {llist(nmap, pair)}\n",
         "/-- option strings that look like negative numbers (argparse then stops treating `-5` as a value). -/",
         f"def negativeNumberLikeFlags : List String := {llist(neg)}\n",
+        "/-- `TomlArgumentType.<member>.is_valid(<probe>)` evaluated on the live enum: (member, repr(probe), verdict). -/",
+        f"def isValidProbes : List (String × String × Bool) := {llist(verdicts, triple)}\n",
         "/-- prefix_chars of both parsers. -/",
         f"def prefixChars : List String := {llist([cli.prefix_chars, toml.prefix_chars])}",
     ]
